@@ -643,31 +643,38 @@ Fixpoint sp_client (now : Z) (sl : list slayer) (m : cmsg) (down : list cmsg) (c
       match sp_verdict k now ss m with
       | VForward => fwd
       | VReject => rej
-      | VEither => if is_rejection k m down client then rej else fwd
+      | VEither => match fwd with Some x => Some x | None => rej end
       end
   end.
 
 (** server messages: every middleware passes them unchanged, except that the
     send-side unique filter must drop an EVENT whose id is in its window,
     must deliver one whose id it has not seen, and is free otherwise.
-    [sp_server] walks from the innermost layer outwards; the result says
-    whether the message is (still) on its way. *)
-Fixpoint sp_server (sl : list slayer) (s : smsg) (delivered : bool) : list slayer * bool :=
-  match sl with
-  | [] => ([], true)
-  | (k, ss) :: inner =>
-      let (inner', alive) := sp_server inner s delivered in
-      if alive then
-        match k, s with
-        | SendUnique size, SEvent _ e =>
-            let seen := sp_seen ss in
-            let pass := if mem_str (ev_id e) (window size seen) then false
-                        else if mem_str (ev_id e) seen then delivered
-                        else true in
-            ((k, SpSeen (ev_id e :: seen)) :: inner', pass)
-        | _, _ => ((k, ss) :: inner', true)
-        end
-      else ((k, ss) :: inner', false)
+    [sp_server_in] walks from the innermost layer outwards ([rl] is the stack
+    innermost first) and checks that some admissible choice explains whether
+    the message was [delivered]; [None] = no choice does. *)
+Fixpoint sp_server_in (rl : list slayer) (s : smsg) (delivered : bool) : option (list slayer) :=
+  match rl with
+  | [] => if delivered then Some [] else None
+  | (k, ss) :: outer =>
+      match k, s with
+      | SendUnique size, SEvent _ e =>
+          let seen := sp_seen ss in
+          let l' := (k, SpSeen (ev_id e :: seen)) in
+          let pass := match sp_server_in outer s delivered with
+                      | Some o' => Some (l' :: o')
+                      | None => None
+                      end in
+          let drop := if delivered then None else Some (l' :: outer) in
+          if mem_str (ev_id e) (window size seen) then drop
+          else if mem_str (ev_id e) seen then match pass with Some x => Some x | None => drop end
+          else pass
+      | _, _ =>
+          match sp_server_in outer s delivered with
+          | Some o' => Some ((k, ss) :: o')
+          | None => None
+          end
+      end
   end.
 
 Definition sp_step (now : Z) (sl : list slayer) (o : op) (ob : obs) : option (list slayer) :=
@@ -675,8 +682,12 @@ Definition sp_step (now : Z) (sl : list slayer) (o : op) (ob : obs) : option (li
   | OClient m => sp_client now sl m (fst ob) (snd ob)
   | OServer s =>
       let delivered := match snd ob with [] => false | _ => true end in
-      let (sl', alive) := sp_server sl s delivered in
-      if cmsgs_eqb (fst ob) [] && smsgs_eqb (snd ob) (if alive then [s] else []) then Some sl' else None
+      if cmsgs_eqb (fst ob) [] && smsgs_eqb (snd ob) (if delivered then [s] else [])
+      then match sp_server_in (rev sl) s delivered with
+           | Some rl' => Some (rev rl')
+           | None => None
+           end
+      else None
   end.
 
 Fixpoint sp_run (now : Z) (sl : list slayer) (h : list op) (obs : list obs) : bool :=
